@@ -247,6 +247,28 @@ def u_ctl():
     add("ctl-constidx", ["x: Qlist[Qint[2], 4]", "a: %s" % Q2], Q2, ["s = 0", "for i in range(2):", "    s += x[i]", "i = a", "return s + x[i]"])
     add("ctl-constidx", ["a: %s" % Q2, "c: bool"], Q2, [L4, "i = 2", "j = i", "if c:", "    j = a", "return L[j] + L[i]"])
     add("ctl-constidx", ["x: Qlist[Qint[2], 3]", "c: bool"], Q2, ["i = 0", "r = x[i]", "i = 2 if c else 1", "return r + x[i]"])
+    # user names that look like the library's own (constant qubits, ancillas, cse temporaries, if temporaries)
+    B2 = "Tuple[bool, bool]"
+    add("ctl-names", ["TRUE: bool", "b: bool"], B2, "return (True, TRUE and b)")
+    add("ctl-names", ["FALSE: bool", "b: bool"], B2, "return (False, FALSE or b)")
+    add("ctl-names", ["FALSE: bool"], B2, "return (False, FALSE)")
+    add("ctl-names", ["TRUE: bool", "a: bool"], "bool", "return a or not a")
+    add("ctl-names", ["FALSE: bool", "a: bool"], "bool", "return a and not a")
+    add("ctl-names", ["a: bool", "b: bool"], B2, ["TRUE = a and b", "return (TRUE, True)"])
+    add("ctl-names", ["a: bool", "b: bool"], B2, ["FALSE = a or b", "return (FALSE, False)"])
+    add("ctl-names", ["a: bool", "b: bool"], "bool", ["FALSE = a and b", "return FALSE and not FALSE"])
+    add("ctl-names", ["TRUE: %s" % Q2, "FALSE: %s" % Q2], Q2, "return (TRUE + 1) ^ FALSE")
+    add("ctl-names", ["anc_0: bool", "b: bool", "c: bool"], "bool", "return (anc_0 and b) or (c and not anc_0)")
+    add("ctl-names", ["a: bool", "b: bool", "anc_0: bool"], B2, "return ((a or b) and not anc_0, anc_0 and b)")
+    add("ctl-names", ["anc_1: bool", "anc_2: %s" % Q2, "c: bool"], Q2, "return (anc_2 + 1) if (anc_1 or c) else (anc_2 ^ 3)")
+    add("ctl-names", ["a: bool", "b: bool", "c: bool"], "bool", ["anc_0 = a or b", "anc_1 = anc_0 and c", "return (anc_1 or a) ^ anc_0"])
+    add("ctl-names", ["x0: bool", "x1: bool", "x2: bool", "x3: bool"], "Tuple[bool, bool, bool]", ["k = x1 and x2", "return (k ^ x3, x0, k or x3)"])
+    add("ctl-names", ["x0: %s" % Q2, "x1: %s" % Q2], "Tuple[%s, %s]" % (Q2, Q2), "return ((x0 + x1) ^ x1, (x0 + x1) & x0)")
+    add("ctl-names", ["a: bool", "b: bool", "c: bool"], B2, ["x0 = a and b", "x1 = (x0 or c) ^ a", "return (x1 and (x0 or c), x0)"])
+    add("ctl-names", ["_iftarg2: bool", "b: %s" % Q2], Q2, ["c = b", "if _iftarg2:", "    c = b + 1", "else:", "    c = b + 2", "return c"])
+    add("ctl-names", ["_iftarg2: bool", "_iftarg3: bool"], "bool", ["c = _iftarg3", "if _iftarg2:", "    c = not c", "if c:", "    c = _iftarg2", "return c"])
+    add("ctl-names", ["q0: bool", "q1: bool"], "bool", "return q0 and not q1")
+    add("ctl-names", ["i: %s" % Q2, "x: %s" % Q2], Q4, ["c = 0", "for i in range(3):", "    c += x", "return c + i"])
     # a returned alias of an argument still needs its own output qubit
     add("ctl-alias", ["a: bool", "b: bool"], "bool", ["v = a", "return v"])
     add("ctl-alias", ["a: bool", "b: bool"], "bool", ["v = b", "w = v", "return w"])
